@@ -362,6 +362,14 @@ def replay(unit, obl):
                 if abs(got - ops[o](val(l), val(r))) > 1e-12:
                     problems.append(f"{a} {o} {b}: value {got} != pointwise {ops[o](val(l), val(r))} at {(x, y, z, t)}")
             c._clear_cache()
+
+            def leaves_of(p):
+                if isinstance(p, CompositeParameter):
+                    return leaves_of(p.left) + leaves_of(p.right)
+                return [p] if isinstance(p, Parameter) else []
+            left_over = [len(q._cache) for q in leaves_of(c) if getattr(q, "_cache", None)]
+            if left_over:
+                problems.append(f"{a} {o} {b}: _clear_cache() leaves {sum(left_over)} cached evaluations in the operands (nested composites are not cleared)")
             d = pickle.loads(pickle.dumps(c))
             _ = d.time_dependent, d._cache, d._use_cache
             _ = c._use_cache
